@@ -6,7 +6,7 @@ from unittest import mock
 import numpy as np
 import torch
 
-from vlib import cb, cl, cln, cn, co, cp, coq_eval_bools, coq_eval_print, exc_kind, shrink
+from vlib import COQ, CoqError, cb, cl, cln, cn, co, cp, coq_eval_bools, coq_eval_print, exc_kind, shrink
 
 IMPORTS = "From PV Require Import C13.Model C13.Spec.\nLocal Open Scope nat_scope.\n"
 MODES = ["raise", "drop", "uneven", "ignore"]
@@ -127,6 +127,46 @@ def model_term(case, out):
         if o is not None:
             parts.append(f"list_eqb {cln(o[2])} {cln(o[1][-1])}")
     return "(" + " && ".join(parts) + ")"
+
+
+IMPORTS_SRC = "From PV Require Import C13.Model C13.SrcRun.\nLocal Open Scope nat_scope.\n"
+
+
+def src_term(case, out):
+    """bool: the regenerated source terms (PV.Gen.C13Src), run by PV.MiniPy.Interp inside Coq, give what the
+    implementation gave - per rank: ValueError / (len, the k+1 successive iterations)."""
+    if any(isinstance(o, str) for o in out):
+        return "false"
+    orders = cl([cln(o) for o in oracle_orders(case)])
+    parts = []
+    ranks = range(case["W"]) if case["W"] > 0 else [0]
+    for r, o in zip(ranks, out):
+        dist = co(cp(cn(r), cn(case["W"]))) if case["W"] > 0 else "None"
+        parts.append(f"src_check {cn(case['n'])} {dist} {CMODE[case['mode']]} {cn(case['e0'])} {orders} {_rank_out(o)}")
+    if case["kind"] == "sequential":
+        parts.append(f"src_seq_order_check {cn(case['n'])}")
+    return "(" + " && ".join(parts) + ")"
+
+
+def source_tie(chk, cases, outs):
+    """run the translated source inside Coq on the cases of this run (validates the translator + MiniPy semantics +
+    ext13 against CPython; independent of whether the tie lemmas still compile)"""
+    idx = [i for i, c in enumerate(cases) if c["n"] <= 64]
+    try:
+        res = coq_eval_bools(chk.workdir, IMPORTS_SRC, [src_term(cases[i], outs[i]) for i in idx], tag="src")
+    except CoqError as e:
+        chk.extra["source_tie_run"] = "not evaluated: " + str(e)[-400:]
+        return
+    bad = [idx[j] for j, ok in enumerate(res) if not ok]
+    chk.extra["source_tie_run"] = {"cases": len(idx), "disagreements": len(bad)}
+    chk.count("source_tie_cases", len(idx))
+    if bad:
+        i = bad[0]
+        chk.report({"case": cases[i], "impl": outs[i],
+                    "what": "the Python source as translated to MiniPy and interpreted in Coq (PV.C13.SrcRun.src_run) does not "
+                            "reproduce the implementation's output: translator / interpreter / ext13 no longer describe the code",
+                    "correspondence": "tie:C13:py2coq+MiniPy.Interp:AbstractEpochSampler.{__init__,__len__,get_samples_for_epoch,__iter__}",
+                    "theorems_at_stake": ["c13_source_refines_model"]}, no_failing_input=True)
 
 
 def spec_term(case, out):
@@ -271,6 +311,7 @@ def run(chk, cases=None):
         chk.count("outcome=" + ("raise" if any(o is None for o in out) else "ok"))
         chk.count("run=" + c.get("run", "seq"))
     res = coq_eval_bools(chk.workdir, IMPORTS, terms)
+    source_tie(chk, cases, outs)
     bad = [i for i, ok in enumerate(res) if not ok]
     chk.extra["model_disagreements"] = len(bad)
     found_concrete = False
